@@ -776,8 +776,27 @@ static ares_bool_t ares_servers_remove_stale(ares_channel_t *channel,
 
 static void ares_servers_trim_single(ares_channel_t *channel)
 {
+  /* Keep the first CONFIGURED server (idx 0).  The list is sorted by failures
+   * first, so its head is not necessarily that server.  Destroying a server
+   * may run completion callbacks, so look for the next victim from the head
+   * every time. */
   while (ares_slist_len(channel->servers) > 1) {
-    ares_slist_node_destroy(ares_slist_node_last(channel->servers));
+    ares_slist_node_t *node;
+    ares_slist_node_t *victim = NULL;
+
+    for (node = ares_slist_node_first(channel->servers); node != NULL;
+         node = ares_slist_node_next(node)) {
+      const ares_server_t *server = ares_slist_node_val(node);
+      if (server->idx != 0) {
+        victim = node;
+        break;
+      }
+    }
+
+    if (victim == NULL) {
+      break;
+    }
+    ares_slist_node_destroy(victim);
   }
 }
 
